@@ -230,6 +230,24 @@ fn derive_not_shape(def: &NotDef, symbol_table: &mut BTreeMap<Rc<str>, Shape>) -
     )
 }
 
+/// Whether a value of this shape may turn out to be a tuple, module or import.
+/// A candidate that is itself narrowed counts if any of its candidates does,
+/// or if it is unconstrained.
+fn maybe_copyable(shape: &Shape) -> bool {
+    match shape {
+        Shape::Tuple(_) | Shape::Module(_) | Shape::Import(_) | Shape::Hole(_) => true,
+        Shape::Narrowed(NarrowedShape {
+            types: NarrowingShape::Any,
+            ..
+        }) => true,
+        Shape::Narrowed(NarrowedShape {
+            types: NarrowingShape::Narrowed(types),
+            ..
+        }) => types.is_empty() || types.iter().any(maybe_copyable),
+        _ => false,
+    }
+}
+
 fn derive_copy_shape(def: &CopyDef, symbol_table: &mut BTreeMap<Rc<str>, Shape>) -> Shape {
     let base_shape = def.selector.derive_shape(symbol_table);
     match &base_shape {
@@ -286,12 +304,8 @@ fn derive_copy_shape(def: &CopyDef, symbol_table: &mut BTreeMap<Rc<str>, Shape>)
             // 1. Do the possible shapes include tuple, module, or import?
             let filtered = potentials
                 .iter()
-                .filter_map(|v| match v {
-                    Shape::Tuple(_) | Shape::Module(_) | Shape::Import(_) | Shape::Hole(_) => {
-                        Some(v.clone())
-                    }
-                    _ => None,
-                })
+                .filter(|v| maybe_copyable(v))
+                .cloned()
                 .collect::<Vec<Shape>>();
             if !filtered.is_empty() {
                 //  1.1 Then return those and strip the others.
